@@ -544,6 +544,51 @@ def debug_mode_crash_probe(ctx):
         set_debug_mode(saved)
 
 
+def nn_and_editable_order_probe(ctx):
+    """a class that is BOTH a torch.nn.Module and an EditableModule, whose getparamnames lists only some of its Parameters (a frozen
+    one registered between them is left out): after a functional call and its backward pass the Parameters are the same objects,
+    registered under the same names in the same ORDER (finding F41: the listed ones are deleted and re-set, which moves them behind
+    the unlisted ones in named_parameters())"""
+    import xitorch as xt
+    from xitorch.optimize import rootfinder
+
+    class Both(torch.nn.Module, xt.EditableModule):
+        def __init__(self, frozen_in_the_middle):
+            super().__init__()
+            mk = lambda v, rg=True: torch.nn.Parameter(torch.tensor([v], dtype=torch.float64), requires_grad=rg)
+            self.z0 = mk(0.0)
+            self.a = mk(2.0)
+            if frozen_in_the_middle:
+                self.frozen = mk(1.0, False)
+            self.c = mk(0.5)
+            if not frozen_in_the_middle:
+                self.frozen = mk(1.0, False)
+
+        def forward(self, y):
+            return y * y * self.a - self.frozen + y * self.c
+
+        def getparamnames(self, methodname, prefix=""):
+            return [prefix + "a", prefix + "c"]
+
+    for middle in (False, True):
+        m = Both(middle)
+        before = [(n, id(p)) for n, p in m.named_parameters()]
+        with warnings.catch_warnings():
+            warnings.simplefilter("ignore")
+            y = rootfinder(m.forward, torch.tensor([0.5], dtype=torch.float64))
+            after_fwd = [(n, id(p)) for n, p in m.named_parameters()]
+            y.sum().backward()
+        after_bwd = [(n, id(p)) for n, p in m.named_parameters()]
+        ctx.count(("nn-and-editable-order", middle), nontrivial=True)
+        info = {"class": "Both(torch.nn.Module, xitorch.EditableModule)", "registered": [n for n, _ in before],
+                "getparamnames": ["a", "c"], "functional": "rootfinder + backward"}
+        if sorted(after_bwd) != sorted(before) or sorted(after_fwd) != sorted(before):
+            ctx.fail("oracle", "nn-and-editable:parameters-replaced", info, [n for n, _ in after_bwd], [n for n, _ in before])
+        elif after_bwd != before or after_fwd != before:
+            ctx.fail("oracle", "nn-and-editable:subset-names:parameter-order-permuted", info,
+                     {"after_forward": [n for n, _ in after_fwd], "after_backward": [n for n, _ in after_bwd]}, [n for n, _ in before])
+
+
 def check(ctx):
     cases, meta = [], []
     program_cases(ctx, cases, meta)
@@ -557,6 +602,7 @@ def check(ctx):
     linop_crash_oracle(ctx)
     debug_flag_probe(ctx)
     debug_mode_crash_probe(ctx)
+    nn_and_editable_order_probe(ctx)
 
 
 def search(ctx):
